@@ -115,3 +115,11 @@ func suffixClass(name string) string {
 	}
 	return "other"
 }
+
+func mustYAML(v interface{}) string {
+	b, err := yamlv2Marshal(v)
+	if err != nil {
+		panic(err)
+	}
+	return string(b)
+}
